@@ -202,10 +202,27 @@ pub fn run(seed: u64, thorough: bool, out_dir: &Path, scratch: &Path) -> Out {
             while (keep.len() as u64) < max_points { keep.insert(rng.range(1, total)); }
             chosen = keep.into_iter().collect();
         }
+        // point 0 = a directed state no single-block delivery reaches: the insert thread was several blocks
+        // ahead of the verify thread when the process died (the last 2..4 main-chain blocks are stored as
+        // ChainService::insert_block stores them, without any verification record)
+        if final_main.len() >= 6 { chosen.insert(0, 0); }
         for at in chosen {
-            let label = points[at as usize - 1].split(' ').nth(1).unwrap_or("").to_string();
+            let label = if at == 0 { "backlog-of-stored-unverified-blocks".to_string() } else { points[at as usize - 1].split(' ').nth(1).unwrap_or("").to_string() };
             write_case(&case_dir, &cfg, &blocks, async_mode);
-            let code = run_child(&case_dir, Some(at), None);
+            let code = if at == 0 {
+                let node = Node::on_disk(&consensus, &case_dir.join("node"), false);
+                let main_blocks: Vec<BlockView> = final_main.iter().skip(1).map(|id| blocks[*id as usize - 1].clone()).collect();
+                let m = 2 + (hi as usize % 3);
+                let k = main_blocks.len() - m;
+                for b in &main_blocks[..k] { let _ = node.process(b); }
+                for b in &main_blocks[k..] {
+                    let txn = node.shared.store().begin_transaction();
+                    txn.insert_block(b).expect("insert_block");
+                    txn.commit().expect("commit");
+                }
+                node.stop();
+                None
+            } else { run_child(&case_dir, Some(at), None) };
             out.evaluations += 1;
             *out.stats.entry(format!("crash_{label}")).or_default() += 1;
             if code == Some(0) { *out.stats.entry("crash_point_not_reached".into()).or_default() += 1; }
@@ -326,7 +343,7 @@ pub fn run(seed: u64, thorough: bool, out_dir: &Path, scratch: &Path) -> Out {
                     }
                     // model: deliveries completed before the crash, the one in flight, the crash, everything again
                     let mk = |b: &BlockView| { let id = block_id[&b.hash()]; format!("mkB {} {} {} true", coq_n(id as u128), coq_n(parent_of[&id] as u128), coq_n(u256_u128(&b.header().difficulty()))) };
-                    if !async_mode {
+                    if !async_mode && at != 0 {
                         let done: Vec<String> = blocks.iter().take(progress as usize).map(mk).collect();
                         let inflight: Vec<String> = blocks.iter().skip(progress as usize).take(1).map(mk).collect();
                         let all: Vec<String> = blocks.iter().map(mk).collect();
